@@ -115,7 +115,7 @@ def do_detect(sid, props):
     return 0
 
 
-def do_table():
+def table_text():
     rows = []
     for sid in sorted(os.listdir(SEEDED)):
         mp = os.path.join(SEEDED, sid, "meta.json")
@@ -124,8 +124,24 @@ def do_table():
         m = json.load(open(mp))
         det = ", ".join(f"{p}: {v['verdict']}" for p, v in sorted(m.get("detected_by", {}).items()))
         rows.append(f"| {sid} | {m['property']} | {m.get('summary','')[:110].replace('|','/')} | {det} |")
-    print("| seed | breaks | change | checks (quick tier) |\n|---|---|---|---|")
-    print("\n".join(rows))
+    return "| seed | breaks | change | checks (quick tier) |\n|---|---|---|---|\n" + "\n".join(rows)
+
+
+def do_table():
+    print(table_text())
+
+
+def do_design():
+    """rewrite the seed table of DESIGN.md (between the markers)"""
+    path = os.path.join(VERIF, "DESIGN.md")
+    text = open(path).read()
+    begin, end = "<!-- SEED TABLE BEGIN -->", "<!-- SEED TABLE END -->"
+    if "SEED_TABLE_PLACEHOLDER" in text:
+        text = text.replace("SEED_TABLE_PLACEHOLDER", begin + "\n" + end)
+    a, b = text.index(begin), text.index(end)
+    text = text[:a] + begin + "\n" + table_text() + "\n" + text[b:]
+    open(path, "w").write(text)
+    print("DESIGN.md seed table updated")
 
 
 if __name__ == "__main__":
@@ -136,6 +152,9 @@ if __name__ == "__main__":
         sys.exit(do_detect(a[2], a[3:]))
     if len(a) >= 2 and a[1] == "table":
         do_table()
+        sys.exit(0)
+    if len(a) >= 2 and a[1] == "design":
+        do_design()
         sys.exit(0)
     print(__doc__)
     sys.exit(2)
